@@ -90,7 +90,7 @@ class DPCheck(SubCheck):
             budget = int(os.environ.get("VERIF_LLSYM_BUDGET") or shape.get("budget") or self.budget(tier))
             run = dpcheck.symbolic_run(shape, time_budget=budget)
         except Unsupported as u:
-            return JobResult(sub=self.name, shape=shape, stats=stats, violations=[], samples=[], cover={}, errors=["LLSym unsupported: %s" % u], replays=0, obligations=1, discharged=0, inconclusive=1, wall_s=time.time() - t0)
+            return JobResult(sub=self.name, shape=shape, stats=stats, violations=[], samples=[], cover={}, errors=([] if "time budget exceeded" in str(u) else ["LLSym unsupported: %s" % u]), replays=0, obligations=1, discharged=0, inconclusive=1, wall_s=time.time() - t0)
         it = run.it
         stats["decisions"] = it.stats["merges"] + it.stats["splits"]
         stats["solver_queries"] = it.stats["fit_queries"]
